@@ -296,6 +296,10 @@ func (p *Pool) Run(specs []*Spec, progress func(done int)) []*Result {
 				if j >= len(specs) {
 					return
 				}
+				if specs[j].Fresh && w != nil && w.runs > 0 {
+					w.kill()
+					w = nil
+				}
 				if w == nil || w.runs >= 400 {
 					w.kill()
 					var err error
@@ -320,7 +324,7 @@ func (p *Pool) Run(specs []*Spec, progress func(done int)) []*Result {
 				}
 				w.runs++
 				results[j] = res
-				if !ok {
+				if !ok || specs[j].Fresh {
 					w.kill()
 					w = nil
 				}
